@@ -687,29 +687,40 @@ theorem sender_mkMsg_none {mtype : Nat} {fields : List Field} {tys : List Ty} {b
     · exact h f hf
     · simp
 
+theorem sender_mkReturn_none (m : Msg) (tys : List Ty) (body : List Val) : (mkReturn m tys body).sender = none := by
+  unfold mkReturn
+  apply sender_mkMsg_none
+  intro f hf
+  simp only [List.mem_append, List.mem_singleton, List.mem_cons, List.not_mem_nil, or_false] at hf
+  rcases hf with rfl | hf
+  · simp [FIELD_REPLY_SERIAL]
+  · cases hs : m.sender <;> simp [hs] at hf
+    subst hf; simp [FIELD_DESTINATION]
+
+theorem sender_mkError_none (m : Msg) (e : Err) : (mkError m e).sender = none := by
+  unfold mkError
+  apply sender_mkMsg_none
+  intro f hf
+  simp only [List.mem_append, List.mem_cons, List.not_mem_nil, or_false] at hf
+  rcases hf with (rfl | rfl) | hf
+  · simp [FIELD_REPLY_SERIAL]
+  · simp [FIELD_ERROR_NAME]
+  · cases hs : m.sender <;> simp [hs] at hf
+    subst hf; simp [FIELD_DESTINATION]
+
 theorem builtin_ok (m x : Msg) (hx : x ∈ builtinReply m) : KnownFields x ∧ x.sender = none ∧ m.mtype = 1 := by
   unfold builtinReply at hx
   split at hx
   · cases hx
   · rename_i hm
     have hm1 : m.mtype = 1 := by simpa using hm
-    have ret : ∀ tys body, KnownFields (builtinReply.mkReturn' m tys body) ∧ (builtinReply.mkReturn' m tys body).sender = none := by
-      intro tys body
-      refine ⟨known_mkMsg ?_, sender_mkMsg_none ?_⟩ <;> intro f hf <;> simp only [List.mem_singleton] at hf <;> subst hf <;>
-        simp [FIELD_REPLY_SERIAL]
-    have err : ∀ e, KnownFields (builtinReply.mkErr' m e) ∧ (builtinReply.mkErr' m e).sender = none := by
-      intro e
-      refine ⟨known_mkMsg ?_, sender_mkMsg_none ?_⟩ <;> intro f hf <;>
-        simp only [List.mem_cons, List.not_mem_nil, or_false] at hf <;> rcases hf with rfl | rfl <;>
-        simp [FIELD_REPLY_SERIAL, FIELD_ERROR_NAME]
-    dsimp only at hx
     repeat' split at hx
     all_goals
       simp only [List.mem_singleton] at hx
       subst hx
       first
-        | exact ⟨(ret _ _).1, (ret _ _).2, hm1⟩
-        | exact ⟨(err _).1, (err _).2, hm1⟩
+        | exact ⟨known_mkReturn _ _ _, sender_mkReturn_none _ _ _, hm1⟩
+        | exact ⟨known_mkError _ _, sender_mkError_none _ _, hm1⟩
 
 /-- what a client can find in the sender field of something the bus hands it -/
 def SenderOK (b b' : Bus) (c : ConnId) (m0 : Msg) (to : ConnId) (x : Msg) : Prop :=
